@@ -123,6 +123,9 @@ def gen_root(rng, prop):
         k = rng.choice(['node', 'node', 'TL1', 'TL2', 'TL3', 'TD1', 'TD2', 'nodes'])
     elif prop == 'C09':
         k = rng.choice(['rec', 'rec', 'cb', 'node'])
+    elif prop == 'C07':
+        k = rng.choice(['val', 'val', 'node', 'TL1', 'TL2', 'TD1', 'TD2', 'rec', 'cb', 'nodes',
+                        'dna', 'dna', 'functor', 'mixed'])
     else:
         k = rng.choice(['val', 'val', 'val', 'node', 'TL1', 'TL2', 'TD1', 'TD2', 'rec', 'cb', 'nodes'])
     d = {'kind': k, 'flags': flags}
@@ -156,6 +159,13 @@ def gen_root(rng, prop):
     elif k == 'TD2':
         d['v'] = ['dict', [[kk, ['int', rng.randint(0, 50)]]
                            for kk in rng.sample(['a', 'b', 'c', 'x'], rng.randint(0, 3))]]
+    elif k == 'dna':
+        d['v'] = gen_dna(rng)
+    elif k == 'functor':
+        d['v'] = gen_functor(rng)
+    elif k == 'mixed':
+        d['v'] = ['dict', [['f', gen_functor(rng)], ['d', gen_dna(rng)],
+                           ['h', ['oneof', [1, 2, 3]]], ['l', ['list', [gen_functor(rng)]]]]]
     elif k == 'rec':
         d['v'] = gen_rec(rng, 0)
     elif k == 'cb':
@@ -164,6 +174,22 @@ def gen_root(rng, prop):
             v = ['dict', [['a', v], ['b', ['list', [['int', 1]]]]]]
         d['v'] = v
     return d
+
+
+def gen_dna(rng):
+    meta = [[rng.choice(['m1', 'm2']), rng.randint(0, 9), rng.random() < 0.5]
+            for _ in range(rng.randint(0, 2))]
+    user = [[rng.choice(['u1', 'u2']), rng.randint(0, 9), rng.random() < 0.5]
+            for _ in range(rng.randint(0, 2))]
+    return ['dna', rng.randint(0, 999), meta, user]
+
+
+def gen_functor(rng):
+    kw = {}
+    for name in ('a', 'b', 'c'):
+        if rng.random() < 0.5:
+            kw[name] = rng.randint(0, 5)
+    return ['functor', kw]
 
 
 def gen_plain_dict(rng):
@@ -256,7 +282,8 @@ def gen_op(rng, prop):
         kinds = LIST_OPS + DICT_OPS + OBJ_OPS * 3 + ['rebind'] * 3 + \
             ['seal', 'seal', 'unseal', 'accessor_on', 'accessor_off']
     elif prop == 'C07':
-        kinds = kinds + ['clone', 'clone_shallow', 'copy_copy', 'deepcopy'] * 2
+        kinds = kinds + ['clone', 'clone_shallow', 'copy_copy', 'deepcopy'] * 2 + \
+            ['dna_meta', 'dna_meta', 'dna_user', 'fn_rebind', 'fn_rebind']
     k = rng.choice(kinds)
     op = {'k': k, 't': [rng.randint(0, 3), rng.randint(0, 11)], 'a': {}}
     a = op['a']
@@ -303,6 +330,13 @@ def gen_op(rng, prop):
         a['reject_at'] = rng.randint(0, 3) if rng.random() < 0.15 else None
     if k == 'rebind_fn':
         a['what'] = rng.choice(['inc_ints', 'upper_strs', 'noop'])
+    if k in ('dna_meta', 'dna_user'):
+        a['key'] = rng.choice(['m1', 'm2', 'u1', 'extra'])
+        a['val'] = rng.randint(0, 9)
+        a['cloneable'] = rng.random() < 0.6
+    if k == 'fn_rebind':
+        a['name'] = rng.choice(['a', 'b', 'c'])
+        a['val'] = rng.choice([0, 2, 3, 7, None])
     # scoped flags around the op
     scopes = []
     if prop in ('C01', 'C03', 'C07', 'C08', 'C09') and rng.random() < (0.5 if prop == 'C08' else 0.25):
@@ -402,7 +436,7 @@ class Forest:
         kw = {}
         if fl.get('accessor_writable') is False:
             kw['accessor_writable'] = False
-        if k in ('val', 'nodes'):
+        if k in ('val', 'nodes', 'dna', 'functor', 'mixed'):
             v = values.build(d['v'])
             if isinstance(v, (pg.List, pg.Dict)) and kw:
                 v = type(v)(v, **kw)
@@ -569,6 +603,10 @@ def resolve_path(forest, node, path_desc):
 # executing one operation on the real forest
 
 
+CLONE_OPS_ALL = ('clone', 'clone_shallow', 'copy_copy', 'deepcopy', 'json_rt', 'pickle_rt',
+                 'seal', 'unseal')
+
+
 class Outcome:
     __slots__ = ('status', 'result', 'exc', 'new_roots', 'target', 'root_index', 'written',
                  'skipped', 'batch', 'notify_parents', 'skip_notification', 'target_path',
@@ -608,6 +646,14 @@ def execute(forest, op, mirror=None):
         return out
     if k.startswith('o_') and not isinstance(t, pg.Object):
         return out
+    if k not in CLONE_OPS_ALL and not k.startswith('dna_'):
+        # the inside of a DNA (value / children / metadata containers) is managed by
+        # the DNA class itself; generic container mutators are not aimed at it
+        p = t
+        while p is not None:
+            if isinstance(p, pg.DNA):
+                return out
+            p = p.sym_parent
     fn = _OPS[k]
     scopes = [SCOPES[name](val) for name, val in op.get('scopes', [])]
     try:
@@ -935,6 +981,28 @@ def op_pickle_rt(f, t, a, out):
     return r
 
 
+def op_dna_meta(f, t, a, out):
+    if not isinstance(t, pg.DNA):
+        out.skipped = True
+        return
+    t.set_metadata(a['key'], a['val'], cloneable=a['cloneable'])
+
+
+def op_dna_user(f, t, a, out):
+    if not isinstance(t, pg.DNA):
+        out.skipped = True
+        return
+    t.set_userdata(a['key'], a['val'], cloneable=a['cloneable'])
+
+
+def op_fn_rebind(f, t, a, out):
+    if not isinstance(t, pg.Functor):
+        out.skipped = True
+        return
+    v = MISSING if a['val'] is None else a['val']
+    t.rebind({a['name']: v}, raise_on_no_change=False)
+
+
 def op_seal(f, t, a, out):
     t.seal(True)
 
@@ -991,6 +1059,15 @@ def _plain(v):
         return ['L', [_plain(x) for x in v.sym_values()]]
     if isinstance(v, pg.Dict):
         return ['D', [[repr(k), _plain(x)] for k, x in v.sym_items()]]
+    if isinstance(v, pg.DNA):
+        c = v.clone()
+        return ['DNA', json.dumps(v.to_json(), sort_keys=True, default=repr),
+                sorted((str(k), repr(x)) for k, x in v.userdata.items()),
+                # what a clone of it carries over (cloneable metadata / userdata)
+                sorted(str(k) for k in c.metadata.keys()), sorted(str(k) for k in c.userdata.keys())]
+    if isinstance(v, pg.Functor):
+        return ['F', type(v).__name__, [[k, _plain(x)] for k, x in v.sym_items()],
+                sorted(v.specified_args), sorted(v.default_args), sorted(v.non_default_args)]
     if isinstance(v, pg.Object):
         return ['O', type(v).__name__, [[k, _plain(x)] for k, x in v.sym_items()]]
     if isinstance(v, tuple):
@@ -1897,6 +1974,13 @@ for _n, _c in CANARIES_BY_PROP['C03'].items():
 CLONE_OPS = ('clone', 'clone_shallow', 'copy_copy', 'deepcopy')
 
 
+def _ancestors(n):
+    p = n.sym_parent if isinstance(n, pg.Symbolic) else None
+    while p is not None:
+        yield p
+        p = p.sym_parent
+
+
 def _pairs(a, b, path=()):
     """Corresponding nodes of two equal trees."""
     yield a, b, path
@@ -1922,7 +2006,17 @@ class C07Oracle(OracleBase):
                 self.bad('C07.class', k, f'{k}: clone is a {type(r).__name__}, original a '
                          f'{type(t).__name__}', step)
                 return
-            if not pg.eq(r, t) or not pg.eq(t, r):
+            drops_metadata = any(
+                isinstance(n, pg.DNA) and set(n.metadata.keys()) != set(n.clone().metadata.keys())
+                for n, _, _, _ in values.walk(t))
+            if drops_metadata:
+                # by design a DNA's non-cloneable metadata is not carried over, so the
+                # clone is not symbolically equal; decisions must still be equal
+                self.probes['dna_noncloneable_metadata'] = self.probes.get('dna_noncloneable_metadata', 0) + 1
+                if isinstance(t, pg.DNA) and not (r == t):
+                    self.bad('C07.not-equal', f'{k}|dna', f'{k}: cloned DNA {r!r:.160} != {t!r:.160}', step)
+                    return
+            elif not pg.eq(r, t) or not pg.eq(t, r):
                 self.bad('C07.not-equal', k, f'{k}: clone {r!r:.200} is not pg.eq to the '
                          f'original {t!r:.200}', step)
                 return
@@ -1933,6 +2027,11 @@ class C07Oracle(OracleBase):
                     self.bad('C07.class', k, f'{k}: node {list(path)} is {type(b).__name__} in '
                              f'the clone, {type(a).__name__} in the original', step)
                     return
+                inside_dna = any(isinstance(p, pg.DNA) for p in _ancestors(a))
+                if inside_dna:
+                    # (a DNA loaded from compact JSON is built with type checking off,
+                    # deliberately: its internal containers carry no value spec)
+                    continue
                 if isinstance(a, (pg.Dict, pg.List)) and a.value_spec is not b.value_spec \
                         and not pg.eq(a.value_spec, b.value_spec):
                     self.bad('C07.schema-binding', f'{k}|{type(a).__name__}',
